@@ -2,6 +2,7 @@ package numscript
 
 import (
 	"context"
+	"encoding/json"
 	"math/big"
 	"strings"
 
@@ -76,13 +77,13 @@ func ZZC13RoundTrip(typ, kind string) {
 	switch m := v1.(type) {
 	case interpreter.MonetaryInt:
 		b, _ := m.MarshalJSON()
-		zzvrt.Assert(zzvrt.StrEq(string(b), "\""+stored+"\""), "C13:json-is-the-quoted-text")
+		zzJSONIsText(b, stored)
 	case interpreter.Monetary:
 		b, _ := m.MarshalJSON()
-		zzvrt.Assert(zzvrt.StrEq(string(b), "\""+stored+"\""), "C13:json-is-the-quoted-text")
+		zzJSONIsText(b, stored)
 	case interpreter.Portion:
 		b, _ := m.MarshalJSON()
-		zzvrt.Assert(zzvrt.StrEq(string(b), "\""+stored+"\""), "C13:json-is-the-quoted-text")
+		zzJSONIsText(b, stored)
 	}
 
 	// second script: read the stored text back through a metadata-backed variable
@@ -167,4 +168,14 @@ func zzSplitRat(s string) (*big.Int, *big.Int) {
 	n, _ := new(big.Int).SetString(p[0], 10)
 	d, _ := new(big.Int).SetString(p[1], 10)
 	return n, d
+}
+
+// zzJSONIsText: b is a JSON string (whatever escapes it uses) that decodes to exactly text.
+func zzJSONIsText(b []byte, text string) {
+	var got string
+	err := json.Unmarshal(b, &got)
+	zzvrt.Assert(err == nil, "C13:json-form-is-valid-json")
+	if err == nil {
+		zzvrt.Assert(zzvrt.StrEq(got, text), "C13:json-is-the-quoted-text")
+	}
 }
